@@ -25,8 +25,9 @@ worker() {
         n=$((n+1))
         [ $(( (n - 1) % J )) -eq $((i - 1)) ] || continue
         rel=${p#/verif/}
-        prop=$(sed -n 's/^# property: //p' "$p" | head -1)
-        [ -n "$prop" ] || prop=$(sed -n 's/.*"property": *"\([^"]*\)".*/\1/p' "$(dirname "$p")/meta.json" 2>/dev/null | head -1)
+        pp=$BASE/verif$i/$rel
+        prop=$(sed -n 's/^# property: //p' "$pp" | head -1)
+        [ -n "$prop" ] || prop=$(sed -n 's/.*"property": *"\([^"]*\)".*/\1/p' "$(dirname "$pp")/meta.json" 2>/dev/null | head -1)
         out=$(unshare -m bash -c "mount --bind $BASE/repo$i /repo && mount --bind $BASE/verif$i /verif && cd /repo && git checkout -q -- . && git clean -fdq && if git apply '$BASE/verif$i/$rel' 2>/dev/null; then cd /verif && ./check.sh $prop quick 2>&1; echo EXIT=\$?; cd /repo && git checkout -q -- . && git clean -fdq; else echo SKIP-DOES-NOT-APPLY; fi")
         code=$(echo "$out" | sed -n 's/^EXIT=//p' | tail -1)
         classes=$(echo "$out" | sed -n 's/.*violation class=\([^:]*\):.*/\1/p' | sort -u | tr '\n' ' ')
